@@ -1,7 +1,9 @@
 (* C16: specification of the four lint rules as predicates on ONE declaration and its own method
    subtree, and the proofs that the checker models (Model/Lints.v) flag exactly the declarations
-   satisfying their rule, each once -- for ALL trees satisfying the guard WF16k, which is stated
-   explicitly and is refuted class by class in Properties/C16.v. *)
+   satisfying their rule, each once -- for ALL trees whose root is not itself a function (the only
+   hypothesis; the parser's root is an AstRoot).  The inherited and the purge rule are exact
+   characterisations with no guard on the shape of methods, statements or declarations: both
+   checkers decide a method on the method node's own subtree. *)
 From GoldV Require Import Base Tokens Lexer AstKinds Tree Lints.
 From Coq Require Import Permutation.
 
@@ -461,36 +463,28 @@ Proof.
 Qed.
 
 (* ========================================================================================== *)
-(* 6. inherited rule                                                                          *)
+(* 6. the two stateful checkers report when they visit a method node                          *)
 (* ========================================================================================== *)
 
-(* the `pass` statement: a token that is not a string literal and is spelled pass, any letter case
-   (`pass` is lexed as an identifier; since 44578d5 the checker's test is this very predicate) *)
-Definition is_pass_stmt (x : node) : bool := is_pass_terminal x.
+(* a v2 visitor that appends a list depending on the visited node alone: the walk is a flat_map over
+   the pre-order listing, whatever the context and the parents are *)
+Lemma run2_append (v : wctx -> list node -> node -> list diag -> list diag) (f : node -> list diag) :
+  (forall c anc n out, v c anc n out = out ++ f n) ->
+  forall ast, run2 v (fun s => s) ast [] = flat_map f (nodes ast).
+Proof.
+  intros H ast. unfold run2. rewrite walk2_fold.
+  rewrite (fold_step2_plain v (fun s n => s ++ f n)) by (intros; apply H).
+  rewrite map_snd_pre. cbn [snd].
+  rewrite (fold_app_like (fun x o => o ++ f x)) by (intros x out; reflexivity).
+  reflexivity.
+Qed.
 
-Definition s_SELF : str := [83;69;76;70].
-
-(* `inherited self.<name of m>` (the right operand may carry arguments) *)
-Definition inh_self_call (m x : node) : bool :=
-  is_inherited_op x && inh_names m x &&
-  match child 0 x with
-  | Some e =>
-    match attr_tok K_op e with Some t => tt_eqb (tty t) TDot | None => false end &&
-    match child 0 e with
-    | Some l => is_kind KAstTerminal l && str_eqb (upper (nident l)) s_SELF
-    | None => false
-    end
-  | None => false
-  end.
-
-Definition R_inh (m : node) : Prop :=
-  is_method m = true /\ in_check_set (upper (nident m)) = true /\
-  (forall x, In x (body m) -> is_pass_stmt x = false) /\
-  (forall x, In x (body m) -> inh_self_call m x = false).
-
-Definition R_inhb (m : node) : bool :=
-  is_method m && in_check_set (upper (nident m)) &&
-  negb (existsb is_pass_stmt (body m)) && negb (existsb (inh_self_call m) (body m)).
+Lemma flat_map_filter {A B} (p : A -> bool) (g : A -> list B) l :
+  flat_map (fun x => if p x then g x else []) l = flat_map g (filter p l).
+Proof.
+  induction l as [|x l IH]; [reflexivity|]. cbn [flat_map filter].
+  destruct (p x); cbn [flat_map app]; rewrite IH; reflexivity.
+Qed.
 
 Lemma existsb_false {A} (p : A -> bool) l : existsb p l = false <-> forall x, In x l -> p x = false.
 Proof.
@@ -499,146 +493,6 @@ Proof.
   - rewrite orb_false_iff, IH. split.
     + intros [H1 H2] x [->|Hx]; auto.
     + intro H. split; [apply H; left; reflexivity | intros x Hx; apply H; right; exact Hx].
-Qed.
-
-Lemma R_inhb_spec m : R_inhb m = true <-> R_inh m.
-Proof.
-  unfold R_inhb, R_inh. rewrite !andb_true_iff, !negb_true_iff, !existsb_false. tauto.
-Qed.
-
-Definition inh_diag (m : node) : diag := mkDiag INH WARNING (name_range m) (nident m).
-Definition spec_inh (m : node) : list diag := if R_inhb m then [inh_diag m] else [].
-
-(* what the checker's flag records for one node, given the current method *)
-Definition inh_trig (cur : option node) (x : node) : bool :=
-  is_pass_terminal x ||
-  (is_inherited_op x && match cur with Some cm => inh_names cm x | None => false end).
-
-Definition inh_verdict (m : node) : list diag :=
-  if in_check_set (upper (nident m)) && negb (existsb (inh_trig (Some m)) (body m))
-  then [mkDiag INH WARNING (inh_sel_range m) (nident m)] else [].
-
-(* one visitor step with the walker's context folded in *)
-Definition istep (st : inh_state) (n : node) : inh_state :=
-  inh_visit (mkCtx None (if is_method n then Some n else ih_cur st)) [] n st.
-
-Lemma cx_method_notify c n :
-  cx_method (ctx_notify c n) = if is_method n then Some n else cx_method c.
-Proof.
-  unfold ctx_notify, is_method.
-  destruct (is_kind KAstClass n), (is_kind KAstModule n), (is_kind KAstProcedure n), (is_kind KAstFunction n);
-    reflexivity.
-Qed.
-
-Lemma inh_visit_ctx c1 c2 a1 a2 n st :
-  cx_method c1 = cx_method c2 -> inh_visit c1 a1 n st = inh_visit c2 a2 n st.
-Proof. intro H. unfold inh_visit. rewrite H. reflexivity. Qed.
-
-Lemma ih_cur_visit c anc n st :
-  ih_cur (inh_visit c anc n st) = if is_method n then Some n else ih_cur st.
-Proof.
-  unfold inh_visit, is_method, inh_method_node.
-  destruct (is_kind KAstProcedure n), (is_kind KAstFunction n), (is_pass_terminal n), (is_inherited_op n),
-    (cx_method c) as [cm|]; cbn [orb ih_cur]; try reflexivity;
-    destruct (inh_names cm n); reflexivity.
-Qed.
-
-Lemma inh_fold l : forall c st,
-  cx_method c = ih_cur st ->
-  snd (fold_left (step2 inh_visit) l (c, st)) = fold_left istep (map snd l) st.
-Proof.
-  induction l as [|p l IH]; intros c st Hc; [reflexivity|].
-  cbn [fold_left map]. unfold step2 at 2. cbn [fst snd].
-  rewrite IH.
-  - f_equal. unfold istep. apply inh_visit_ctx. cbn [cx_method]. rewrite cx_method_notify, Hc. reflexivity.
-  - rewrite cx_method_notify, ih_cur_visit, Hc. reflexivity.
-Qed.
-
-Lemma is_method_kinds n : is_method n = true -> is_pass_terminal n = false /\ is_inherited_op n = false.
-Proof.
-  unfold is_method, is_pass_terminal, is_inherited_op. intro H. apply orb_true_iff in H as [H|H].
-  - rewrite (is_kind_excl _ KAstTerminal _ H), (is_kind_excl _ KAstUnaryOp _ H) by discriminate. split; reflexivity.
-  - rewrite (is_kind_excl _ KAstTerminal _ H), (is_kind_excl _ KAstUnaryOp _ H) by discriminate. split; reflexivity.
-Qed.
-
-Lemma istep_method st n :
-  is_method n = true -> istep st n = mkInh false (Some n) (ih_out (inh_check st)).
-Proof.
-  intro H. unfold istep, inh_visit. rewrite H.
-  destruct (is_method_kinds n H) as [H1 H2]. rewrite H1, H2.
-  unfold is_method in H. apply orb_true_iff in H as [H|H].
-  - rewrite H, (is_kind_excl _ KAstFunction _ H) by discriminate. reflexivity.
-  - rewrite H, (is_kind_excl _ KAstProcedure _ H) by discriminate. reflexivity.
-Qed.
-
-Lemma istep_other st n :
-  is_method n = false ->
-  istep st n = mkInh (ih_called st || inh_trig (ih_cur st) n) (ih_cur st) (ih_out st).
-Proof.
-  intro H. unfold istep, inh_visit, inh_trig. rewrite H.
-  unfold is_method in H. apply orb_false_iff in H as [H1 H2]. rewrite H1, H2.
-  destruct st as [f cur out]. cbn [ih_called ih_cur ih_out cx_method].
-  destruct (is_pass_terminal n), (is_inherited_op n), cur as [cm|]; cbn [orb andb ih_cur ih_out];
-    rewrite ?orb_true_r, ?orb_false_r; try reflexivity;
-    destruct (inh_names cm n); rewrite ?orb_true_r, ?orb_false_r; reflexivity.
-Qed.
-
-Lemma ifold_method_free l : forall st,
-  forallb (fun x => negb (is_method x)) l = true ->
-  fold_left istep l st = mkInh (ih_called st || existsb (inh_trig (ih_cur st)) l) (ih_cur st) (ih_out st).
-Proof.
-  induction l as [|x l IH]; intros st H.
-  - destruct st. cbn. rewrite orb_false_r. reflexivity.
-  - cbn [forallb] in H. apply andb_true_iff in H as [H1 H2]. apply negb_true_iff in H1.
-    cbn [fold_left existsb]. rewrite IH by exact H2. rewrite istep_other by exact H1.
-    cbn [ih_called ih_cur ih_out]. rewrite orb_assoc. reflexivity.
-Qed.
-
-(* outside methods nothing may look like a trigger of a stateful rule *)
-Definition gap_quiet (x : node) : bool :=
-  negb (is_pass_terminal x) && negb (is_inherited_op x) && negb (is_tvba_local x) && negb (is_purge_call x).
-
-Definition inh_item_ok (it : item) : Prop :=
-  match it with Gap x => gap_quiet x = true | Meth m => no_nested m = true end.
-
-Lemma ifold_items its : forall st,
-  Forall item_shape its -> Forall inh_item_ok its ->
-  ih_out (inh_check (fold_left istep (flat_map expand its) st)) =
-  ih_out (inh_check st) ++ flat_map inh_verdict (meths its).
-Proof.
-  induction its as [|it its IH]; intros st Hs Hok.
-  - cbn. rewrite app_nil_r. reflexivity.
-  - inversion Hs; subst. inversion Hok; subst. cbn [flat_map]. rewrite fold_left_app, IH by assumption.
-    destruct it as [x|m]; cbn [expand meths flat_map item_shape inh_item_ok app] in *.
-    + cbn [fold_left]. rewrite istep_other by assumption.
-      unfold gap_quiet in H3. rewrite !andb_true_iff, !negb_true_iff in H3. destruct H3 as [[[P1 P2] _] _].
-      unfold inh_trig. rewrite P1, P2. cbn [orb andb]. rewrite orb_false_r. destruct st; reflexivity.
-    + rewrite nodes_body. cbn [fold_left]. rewrite istep_method by assumption.
-      rewrite ifold_method_free by exact H3. cbn [ih_called ih_cur ih_out orb].
-      rewrite app_assoc. f_equal.
-      unfold inh_check at 1. cbn [ih_cur ih_called ih_out]. unfold inh_verdict.
-      destruct (in_check_set (upper (nident m)) && negb (existsb (inh_trig (Some m)) (body m)));
-        cbn [ih_out]; [reflexivity | rewrite app_nil_r; reflexivity].
-Qed.
-
-Lemma inherited_lint_items file :
-  Forall inh_item_ok (items file) ->
-  inherited_lint file = flat_map inh_verdict (meths (items file)).
-Proof.
-  intro H. unfold inherited_lint, run2. rewrite walk2_fold, inh_fold by reflexivity.
-  rewrite map_snd_pre, nodes_items.
-  rewrite ifold_items by (try apply items_shape; assumption). reflexivity.
-Qed.
-
-(* per-method guards of the inherited rule *)
-Definition inh_ok (m : node) : bool :=
-  forallb (fun x => implb (is_inherited_op x && inh_names m x) (inh_self_call m x)) (body m).
-
-Lemma inh_sel_range_method m : is_method m = true -> inh_sel_range m = name_range m.
-Proof.
-  unfold is_method, inh_sel_range. intro H. apply orb_true_iff in H as [H|H].
-  - rewrite H, (is_kind_excl _ KAstFunction _ H) by discriminate. reflexivity.
-  - rewrite H. reflexivity.
 Qed.
 
 Lemma existsb_ext_in {A} (p q : A -> bool) l : (forall x, In x l -> p x = q x) -> existsb p l = existsb q l.
@@ -653,22 +507,128 @@ Proof.
   destruct (p x), (q x), (existsb p l), (existsb q l); reflexivity.
 Qed.
 
-Lemma inh_verdict_spec m :
-  is_method m = true -> inh_ok m = true -> inh_verdict m = spec_inh m.
+Lemma existsb_flat_map {A B} (p : B -> bool) (g : A -> list B) l :
+  existsb p (flat_map g l) = existsb (fun x => existsb p (g x)) l.
 Proof.
-  intros Hm Hi. unfold inh_verdict, spec_inh, R_inhb, inh_diag. rewrite Hm, inh_sel_range_method by exact Hm.
-  cbn [andb]. rewrite <- andb_assoc, <- negb_orb.
-  replace (existsb (inh_trig (Some m)) (body m)) with (existsb is_pass_stmt (body m) || existsb (inh_self_call m) (body m));
-    [reflexivity|].
-  rewrite <- existsb_orb. apply existsb_ext_in. intros x Hx.
-  unfold inh_ok in *. rewrite forallb_forall in Hi. specialize (Hi x Hx).
-  unfold inh_trig, is_pass_stmt. unfold inh_self_call in *. cbn [inh_names] in *.
-  set (B' := match child 0 x with Some e => _ && _ | None => false end) in *.
-  destruct (is_pass_terminal x), (is_inherited_op x), (inh_names m x), B'; cbn in *; congruence.
+  induction l as [|x l IH]; [reflexivity|]. cbn [flat_map existsb]. rewrite existsb_app, IH. reflexivity.
 Qed.
 
 (* ========================================================================================== *)
-(* 7. unpurged tVarByteArray rule                                                             *)
+(* 7. inherited rule                                                                          *)
+(* ========================================================================================== *)
+
+(* the method's name as the checker compares it *)
+Definition mname (m : node) : str := upper_rs (nident m).
+
+(* the `pass` statement: a token that is not a string literal and is spelled pass, any letter case
+   (`pass` is lexed as an identifier; since 44578d5 the checker's test is this very predicate) *)
+Definition is_pass_stmt (x : node) : bool := is_pass_terminal x.
+
+(* `inherited self.<name>` / `inherited self.<name>(...)`, spelled out *)
+Definition InhSelfCall (u : str) (x : node) : Prop :=
+  exists top e tdot l tl r,
+    nkind x = KAstUnaryOp /\ attr_tok K_op x = Some top /\ tty top = TInherited /\
+    child 0 x = Some e /\ nkind e = KAstBinaryOp /\ attr_tok K_op e = Some tdot /\ tty tdot = TDot /\
+    child 0 e = Some l /\ nkind l = KAstTerminal /\ attr_tok K_token l = Some tl /\ tty tl = TIdentifier /\
+    upper_rs (tval tl) = s_SELF /\
+    child 1 e = Some r /\ (nkind r = KAstTerminal \/ nkind r = KAstMethodCall) /\ upper_rs (nident r) = u.
+
+Lemma inh_self_call_iff u x : inh_self_call u x = true <-> InhSelfCall u x.
+Proof.
+  unfold inh_self_call, InhSelfCall, is_inherited_op, is_self_terminal. split.
+  - intro H. apply andb_true_iff in H as [H1 H2]. apply andb_true_iff in H1 as [K1 K2].
+    destruct (attr_tok K_op x) as [top|] eqn:Eop; [|discriminate K2].
+    destruct (child 0 x) as [e|] eqn:Ee; [|discriminate H2].
+    apply andb_true_iff in H2 as [H2 H3]. apply andb_true_iff in H2 as [K3 K4].
+    destruct (attr_tok K_op e) as [tdot|] eqn:Ed; [|discriminate K4].
+    destruct (child 0 e) as [l|] eqn:El; [|discriminate H3].
+    destruct (child 1 e) as [r|] eqn:Er; [|discriminate H3].
+    apply andb_true_iff in H3 as [H3 K7]. apply andb_true_iff in H3 as [K5 K6].
+    apply andb_true_iff in K5 as [K5 K8].
+    destruct (attr_tok K_token l) as [tl|] eqn:Etl; [|discriminate K8].
+    apply andb_true_iff in K8 as [K8 K9].
+    exists top, e, tdot, l, tl, r.
+    apply is_kind_true in K1, K3, K5. apply tt_eqb_eq in K2, K4, K8. apply str_eqb_eq in K7, K9.
+    repeat split; auto.
+    apply orb_true_iff in K6 as [K6|K6]; apply is_kind_true in K6; auto.
+  - intros (top & e & tdot & l & tl & r & K1 & Eop & K2 & Ee & K3 & Ed & K4 & El & K5 & Etl & K8 & K9 & Er & K6 & K7).
+    rewrite Eop, Ee, Ed, El, Er, Etl, K2, K4, K8, K9, K7.
+    apply is_kind_true in K1, K3, K5. rewrite K1, K3, K5, !str_eqb_refl.
+    replace (is_kind KAstTerminal r || is_kind KAstMethodCall r) with true; [reflexivity|].
+    symmetry. apply orb_true_iff. destruct K6 as [K6|K6]; apply is_kind_true in K6; auto.
+Qed.
+
+Definition R_inh (m : node) : Prop :=
+  is_method m = true /\ in_check_set (mname m) = true /\
+  (forall x, In x (body m) -> is_pass_stmt x = false) /\
+  (forall x, In x (body m) -> inh_self_call (mname m) x = false).
+
+Definition R_inhb (m : node) : bool :=
+  is_method m && in_check_set (mname m) &&
+  negb (existsb is_pass_stmt (body m)) && negb (existsb (inh_self_call (mname m)) (body m)).
+
+Lemma R_inhb_spec m : R_inhb m = true <-> R_inh m.
+Proof.
+  unfold R_inhb, R_inh. rewrite !andb_true_iff, !negb_true_iff, !existsb_false. tauto.
+Qed.
+
+Definition inh_diag (m : node) : diag := mkDiag INH WARNING (name_range m) (nident m).
+Definition spec_inh (m : node) : list diag := if R_inhb m then [inh_diag m] else [].
+
+(* calls_inherited is a search through the proper descendants *)
+Definition inh_trig (u : str) (x : node) : bool := is_pass_terminal x || inh_self_call u x.
+
+Lemma inh_scan_eq u n :
+  inh_scan u n = existsb (fun c => inh_trig u c || inh_scan u c) (nchildren n).
+Proof.
+  destruct n as [k i r rg a ch]. cbn [inh_scan nchildren]. unfold inh_trig.
+  induction ch as [|c ch IH]; [reflexivity|]. cbn [existsb]. rewrite IH. reflexivity.
+Qed.
+
+Lemma inh_scan_body u m : inh_scan u m = existsb (inh_trig u) (body m).
+Proof.
+  induction m as [k i r rg a ch IH] using node_ind2.
+  rewrite inh_scan_eq. unfold body. cbn [nchildren]. rewrite existsb_flat_map.
+  apply existsb_ext_in. intros c Hc. rewrite Forall_forall in IH. rewrite (IH c Hc), nodes_body.
+  reflexivity.
+Qed.
+
+(* what the visitor appends at a node *)
+Definition inh_verdict (n : node) : list diag :=
+  if is_method n then
+    (if in_check_set (mname n) && negb (inh_scan (mname n) n)
+     then [mkDiag INH WARNING (inh_sel_range n) (nident n)] else [])
+  else [].
+
+Lemma inh_visit_verdict c anc n out : inh_visit c anc n out = out ++ inh_verdict n.
+Proof.
+  unfold inh_visit, inh_verdict, mname. cbv zeta.
+  destruct (is_method n); [|rewrite app_nil_r; reflexivity].
+  destruct (in_check_set _ && negb _); [reflexivity | rewrite app_nil_r; reflexivity].
+Qed.
+
+Lemma inh_sel_range_method m : is_method m = true -> inh_sel_range m = name_range m.
+Proof.
+  unfold is_method, inh_sel_range. intro H. apply orb_true_iff in H as [H|H].
+  - rewrite H, (is_kind_excl _ KAstFunction _ H) by discriminate. reflexivity.
+  - rewrite H. reflexivity.
+Qed.
+
+Lemma inh_verdict_spec m : inh_verdict m = if is_method m then spec_inh m else [].
+Proof.
+  unfold inh_verdict, spec_inh, R_inhb, inh_diag. destruct (is_method m) eqn:Hm; [|reflexivity].
+  rewrite (inh_sel_range_method m Hm), inh_scan_body. cbn [andb].
+  rewrite <- andb_assoc, <- negb_orb, <- existsb_orb. reflexivity.
+Qed.
+
+Theorem inherited_lint_spec file : inherited_lint file = flat_map spec_inh (methods file).
+Proof.
+  unfold inherited_lint. rewrite (run2_append inh_visit inh_verdict inh_visit_verdict).
+  unfold methods. rewrite <- flat_map_filter. apply flat_map_ext_in. intros m _. apply inh_verdict_spec.
+Qed.
+
+(* ========================================================================================== *)
+(* 8. unpurged tVarByteArray rule                                                             *)
 (* ========================================================================================== *)
 
 Definition locals (l : list node) : list node := filter is_tvba_local l.
@@ -677,11 +637,7 @@ Definition locals (l : list node) : list node := filter is_tvba_local l.
 Definition purge_args (l : list node) : list node :=
   flat_map (fun c => if is_purge_call c then match child 0 c with Some a => [a] | None => [] end else []) l.
 
-Definition is_ident_terminal (a : node) : bool :=
-  is_kind KAstTerminal a &&
-  match attr_tok K_token a with Some t => tt_eqb (tty t) TIdentifier | None => false end.
-
-(* the argument is a reference to variable v: an identifier spelled like v, letter case ignored *)
+(* the argument is a reference to variable v: a plain identifier spelled like v, letter case ignored *)
 Definition arg_refers (a v : node) : bool := is_ident_terminal a && ci_eqb (nident a) (nident v).
 
 Definition purged_in (l : list node) (v : node) : bool := existsb (fun a => arg_refers a v) (purge_args l).
@@ -709,373 +665,141 @@ Proof.
     apply in_purge_args. exists c. auto.
 Qed.
 
-Section Purge.
-  Context (keyf : str -> str) (keyf_ci : forall a b, keyf a = keyf b -> upper a = upper b).
+Definition purge_diag (v : node) : diag := mkDiag PURGE WARNING (ident_range v) (nident v).   (* the declared spelling *)
 
-  Definition purge_diag (v : node) : diag := mkDiag PURGE WARNING (ident_range v) (nident v).   (* the declared spelling *)
+(* one diagnostic per DECLARATION (position in the method's pre-order listing), not per name *)
+Definition spec_purge (m : node) : list diag :=
+  flat_map (fun v => if purged_in (body m) v then [] else [purge_diag v]) (locals (body m)).
 
-  Definition spec_purge (m : node) : list diag :=
-    flat_map (fun v => if purged_in (body m) v then [] else [purge_diag v]) (locals (body m)).
+(* scan_method is a fold over the proper descendants *)
+Definition pstep (s : pscan) (c : node) : pscan := unp_call c (unp_local c s).
 
-  (* the visitor restricted to its map *)
-  Definition mstep (M : pmap) (n : node) : pmap :=
-    let M1 := if is_tvba_local n then ainsert (keyf (nident n)) ((nident n, ident_range n), false) M else M in
-    if is_purge_call n then match child 0 n with Some a => amark (keyf (nident a)) M1 | None => M1 end else M1.
-
-  Definition ustep (st : unp_state) (n : node) : unp_state := unp_visit keyf ctx0 [] n st.
-
-  Lemma is_method_kinds2 n : is_method n = true -> is_tvba_local n = false /\ is_purge_call n = false.
-  Proof.
-    unfold is_method, is_tvba_local, is_purge_call. intro H. apply orb_true_iff in H as [H|H];
-      rewrite (is_kind_excl _ KAstLocalVariableDeclaration _ H), (is_kind_excl _ KAstMethodCall _ H) by discriminate;
-      split; reflexivity.
-  Qed.
-
-  Lemma ustep_method st n :
-    is_method n = true -> ustep st n = ([], snd st ++ unpurged_diags (fst st)).
-  Proof.
-    intro H. unfold ustep, unp_visit, unp_call, unp_local. destruct (is_method_kinds2 n H) as [H1 H2].
-    rewrite H1, H2. unfold unp_method_decl. unfold is_method in H. apply orb_true_iff in H as [H|H].
-    - rewrite H, (is_kind_excl _ KAstFunction _ H) by discriminate. reflexivity.
-    - rewrite H, (is_kind_excl _ KAstProcedure _ H) by discriminate. reflexivity.
-  Qed.
-
-  Lemma ustep_other st n : is_method n = false -> ustep st n = (mstep (fst st) n, snd st).
-  Proof.
-    intro H. unfold ustep, unp_visit, unp_method_decl. unfold is_method in H.
-    apply orb_false_iff in H as [H1 H2]. rewrite H1, H2.
-    unfold unp_call, unp_local, mstep. destruct st as [M out]. cbn [fst snd].
-    destruct (is_tvba_local n), (is_purge_call n); cbn [fst snd]; try reflexivity;
-      destruct (child 0 n); reflexivity.
-  Qed.
-
-  Lemma ufold_method_free l : forall st,
-    forallb (fun x => negb (is_method x)) l = true ->
-    fold_left ustep l st = (fold_left mstep l (fst st), snd st).
-  Proof.
-    induction l as [|x l IH]; intros st H.
-    - destruct st; reflexivity.
-    - cbn [forallb] in H. apply andb_true_iff in H as [H1 H2]. apply negb_true_iff in H1.
-      cbn [fold_left]. rewrite ustep_other by exact H1. rewrite IH by exact H2. reflexivity.
-  Qed.
-
-  Definition method_map (m : node) : pmap := fold_left mstep (body m) [].
-  Definition unp_verdict (m : node) : list diag := unpurged_diags (method_map m).
-
-  Lemma ufold_items its : forall st,
-    Forall item_shape its -> Forall inh_item_ok its ->
-    snd (unp_end (fold_left ustep (flat_map expand its) st)) =
-    snd (unp_end st) ++ flat_map unp_verdict (meths its).
-  Proof.
-    induction its as [|it its IH]; intros st Hs Hok.
-    - cbn. rewrite app_nil_r. reflexivity.
-    - inversion Hs; subst. inversion Hok; subst. cbn [flat_map]. rewrite fold_left_app, IH by assumption.
-      destruct it as [x|m]; cbn [expand meths flat_map item_shape inh_item_ok app] in *.
-      + cbn [fold_left]. rewrite ustep_other by assumption.
-        unfold gap_quiet in H3. rewrite !andb_true_iff, !negb_true_iff in H3. destruct H3 as [[_ P3] P4].
-        unfold mstep. rewrite P3, P4. destruct st; reflexivity.
-      + rewrite nodes_body. cbn [fold_left]. rewrite ustep_method by assumption.
-        rewrite ufold_method_free by exact H3. cbn [fst snd unp_end].
-        rewrite app_assoc. reflexivity.
-  Qed.
-
-  Lemma unpurged_lint_items file :
-    Forall inh_item_ok (items file) ->
-    unpurged_lint_k keyf file = flat_map unp_verdict (meths (items file)).
-  Proof.
-    intro H. unfold unpurged_lint_k, run2. rewrite walk2_fold.
-    rewrite (surjective_pairing (unp_end _)). cbn [snd].
-    rewrite (fold_step2_plain (unp_visit keyf) ustep) by reflexivity.
-    rewrite map_snd_pre, nodes_items. cbn [snd].
-    rewrite ufold_items by (try apply items_shape; assumption). reflexivity.
-  Qed.
-
-  (* ---- the map built inside one method ---- *)
-  Definition spec_map (p : list node) : pmap :=
-    map (fun v => (keyf (nident v), ((nident v, ident_range v), purged_in p v))) (locals p).
-
-  Record purge_guard (l : list node) : Prop := {
-    pg_nodup : NoDup (map (fun v => upper (nident v)) (locals l));
-    pg_after : forall p c q a v, l = p ++ c :: q -> is_purge_call c = true -> child 0 c = Some a ->
-                                 In v q -> is_tvba_local v = true -> ci_eqb (nident a) (nident v) = false;
-    pg_args : forall a v, In a (purge_args l) -> In v (locals l) -> ci_eqb (nident a) (nident v) = true ->
-                          keyf (nident a) = keyf (nident v) /\ is_ident_terminal a = true }.
-
-  Lemma ainsert_fresh {V} k (v : V) M : (forall e, In e M -> fst e <> k) -> ainsert k v M = M ++ [(k, v)].
-  Proof.
-    induction M as [|[k' v'] M IH]; intro H; [reflexivity|]. cbn [ainsert app].
-    destruct (str_eqb k k') eqn:E.
-    - apply str_eqb_eq in E. exfalso. apply (H (k', v')); [left; reflexivity | symmetry; exact E].
-    - rewrite IH; [reflexivity|]. intros e He. apply H. right. exact He.
-  Qed.
-
-  Lemma ci_eqb_true a b : ci_eqb a b = true <-> upper a = upper b.
-  Proof. unfold ci_eqb. apply str_eqb_eq. Qed.
-
-  Lemma locals_snoc p x : locals (p ++ [x]) = locals p ++ (if is_tvba_local x then [x] else []).
-  Proof. unfold locals. rewrite filter_app. cbn [filter]. destruct (is_tvba_local x); reflexivity. Qed.
-
-  Lemma purge_args_snoc p x :
-    purge_args (p ++ [x]) =
-    purge_args p ++ (if is_purge_call x then match child 0 x with Some a => [a] | None => [] end else []).
-  Proof. unfold purge_args. rewrite flat_map_app. cbn [flat_map]. rewrite app_nil_r. reflexivity. Qed.
-
-  Lemma tvba_not_call x : is_tvba_local x = true -> is_purge_call x = false.
-  Proof.
-    unfold is_tvba_local, is_purge_call. intro H. apply andb_true_iff in H as [H _].
-    rewrite (is_kind_excl _ KAstMethodCall _ H) by discriminate. reflexivity.
-  Qed.
-
-  Lemma mstep_spec p x q :
-    purge_guard (p ++ x :: q) -> mstep (spec_map p) x = spec_map (p ++ [x]).
-  Proof.
-    intros [Hnd Haft Harg]. unfold mstep, spec_map. rewrite locals_snoc.
-    destruct (is_tvba_local x) eqn:Et.
-    - (* a registration *)
-      rewrite (tvba_not_call x Et). rewrite map_app. cbn [map].
-      assert (Ep : forall v, purged_in (p ++ [x]) v = purged_in p v).
-      { intro v. unfold purged_in. rewrite purge_args_snoc, (tvba_not_call x Et), app_nil_r. reflexivity. }
-      rewrite ainsert_fresh.
-      + f_equal; [apply map_ext; intro v; rewrite Ep; reflexivity|].
-        rewrite Ep. replace (purged_in p x) with false; [reflexivity|]. symmetry. unfold purged_in. apply existsb_false. intros a Ha.
-        apply in_purge_args in Ha as (c & Hc & Hp & Hch). apply in_split in Hc as (p1 & p2 & ->).
-        unfold arg_refers. rewrite (Haft p1 c (p2 ++ x :: q) a x); [apply andb_false_r| |assumption|assumption| |assumption].
-        * rewrite <- app_assoc. reflexivity.
-        * apply in_or_app. right. left. reflexivity.
-      + intros e He. apply in_map_iff in He as (v & <- & Hv). cbn [fst]. intro E. apply keyf_ci in E.
-        unfold locals in Hnd. rewrite filter_app in Hnd. cbn [filter] in Hnd. rewrite Et in Hnd.
-        rewrite map_app in Hnd. cbn [map] in Hnd. apply NoDup_remove_2 in Hnd. apply Hnd.
-        apply in_or_app. left. rewrite <- E. apply in_map_iff. exists v. split; [reflexivity | exact Hv].
-    - rewrite app_nil_r. destruct (is_purge_call x) eqn:Ec.
-      + destruct (child 0 x) as [a|] eqn:Ech.
-        * (* a purge *)
-          unfold amark. rewrite map_map. apply map_ext_in. intros v Hv. cbn [fst snd].
-          unfold purged_in at 2. rewrite purge_args_snoc, Ec, Ech, existsb_app. cbn [existsb]. rewrite orb_false_r.
-          fold (purged_in p v).
-          assert (Ha : In a (purge_args (p ++ x :: q))).
-          { apply in_purge_args. exists x. split; [apply in_or_app; right; left; reflexivity | auto]. }
-          assert (Hv' : In v (locals (p ++ x :: q))).
-          { unfold locals in *. rewrite filter_app. apply in_or_app. left. exact Hv. }
-          unfold arg_refers. destruct (ci_eqb (nident a) (nident v)) eqn:Eci.
-          -- destruct (Harg a v Ha Hv' Eci) as [Ek Eid]. rewrite Ek, str_eqb_refl, Eid. cbn [andb].
-             rewrite orb_true_r. reflexivity.
-          -- rewrite andb_false_r, orb_false_r.
-             destruct (str_eqb (keyf (nident a)) (keyf (nident v))) eqn:Ek; [|reflexivity].
-             apply str_eqb_eq in Ek. apply keyf_ci in Ek. apply ci_eqb_true in Ek. congruence.
-        * apply map_ext. intro v. unfold purged_in. rewrite purge_args_snoc, Ec, Ech, app_nil_r. reflexivity.
-      + apply map_ext. intro v. unfold purged_in. rewrite purge_args_snoc, Ec, app_nil_r. reflexivity.
-  Qed.
-
-  Lemma mfold_spec q : forall p, purge_guard (p ++ q) -> fold_left mstep q (spec_map p) = spec_map (p ++ q).
-  Proof.
-    induction q as [|x q IH]; intros p H.
-    - rewrite app_nil_r. reflexivity.
-    - cbn [fold_left]. rewrite (mstep_spec p x q H).
-      replace (p ++ x :: q) with ((p ++ [x]) ++ q) in * by (rewrite <- app_assoc; reflexivity).
-      apply IH. exact H.
-  Qed.
-
-  Lemma flat_map_map {A B C} (f : A -> B) (g : B -> list C) l : flat_map g (map f l) = flat_map (fun x => g (f x)) l.
-  Proof. induction l as [|x l IH]; [reflexivity|]. cbn [map flat_map]. rewrite IH. reflexivity. Qed.
-
-  Lemma unp_verdict_spec m : purge_guard (body m) -> unp_verdict m = spec_purge m.
-  Proof.
-    intro H. unfold unp_verdict, method_map. change (@nil (str * pinfo)) with (spec_map []).
-    rewrite (mfold_spec (body m) [] H). cbn [app]. unfold spec_map, unpurged_diags, spec_purge.
-    rewrite flat_map_map. reflexivity.
-  Qed.
-
-  (* ---- the guard as a decidable check ---- *)
-  Fixpoint nodupb (l : list str) : bool :=
-    match l with [] => true | x :: l' => negb (existsb (str_eqb x) l') && nodupb l' end.
-
-  Lemma nodupb_NoDup l : nodupb l = true -> NoDup l.
-  Proof.
-    induction l as [|x l IH]; intro H; constructor; cbn [nodupb] in H; apply andb_true_iff in H as [H1 H2].
-    - intro Hin. apply negb_true_iff in H1. rewrite existsb_false in H1. specialize (H1 x Hin).
-      rewrite str_eqb_refl in H1. discriminate.
-    - apply IH. exact H2.
-  Qed.
-
-  (* no tVarByteArray local is declared AFTER a Purge call that names it *)
-  Fixpoint padb (l : list node) : bool :=
-    match l with
-    | [] => true
-    | c :: q =>
-      (if is_purge_call c then
-         match child 0 c with
-         | Some a => forallb (fun v => negb (is_tvba_local v && ci_eqb (nident a) (nident v))) q
-         | None => true
-         end
-       else true) && padb q
-    end.
-
-  Lemma padb_spec l : padb l = true ->
-    forall p c q a v, l = p ++ c :: q -> is_purge_call c = true -> child 0 c = Some a ->
-                      In v q -> is_tvba_local v = true -> ci_eqb (nident a) (nident v) = false.
-  Proof.
-    induction l as [|y l IH]; intros H p c q a v E Hc Ha Hv Ht.
-    - destruct p; discriminate.
-    - cbn [padb] in H. apply andb_true_iff in H as [H1 H2]. destruct p as [|y' p]; cbn [app] in E; inversion E; subst.
-      + rewrite Hc, Ha in H1. rewrite forallb_forall in H1. specialize (H1 v Hv).
-        rewrite Ht in H1. cbn [andb] in H1. apply negb_true_iff in H1. exact H1.
-      + eapply IH; eauto.
-  Qed.
-
-  Definition nodup_locals (l : list node) : bool := nodupb (map (fun v => upper (nident v)) (locals l)).
-
-  (* a Purge argument spelled like a local up to letter case has the same map key (R1) *)
-  Definition key_consistent (l : list node) : bool :=
-    forallb (fun a => forallb (fun v => implb (ci_eqb (nident a) (nident v))
-                                              (str_eqb (keyf (nident a)) (keyf (nident v)))) (locals l)) (purge_args l).
-
-  (* ... and is a plain identifier, not a string literal, call, index ... with that name *)
-  Definition args_plain (l : list node) : bool :=
-    forallb (fun a => forallb (fun v => implb (ci_eqb (nident a) (nident v)) (is_ident_terminal a)) (locals l)) (purge_args l).
-
-  Lemma purge_guard_b l :
-    nodup_locals l = true -> padb l = true -> key_consistent l = true -> args_plain l = true -> purge_guard l.
-  Proof.
-    intros H1 H2 H3 H4. constructor.
-    - apply nodupb_NoDup. exact H1.
-    - apply padb_spec. exact H2.
-    - intros a v Ha Hv E. unfold key_consistent, args_plain in *. rewrite forallb_forall in H3, H4.
-      specialize (H3 a Ha). specialize (H4 a Ha). rewrite forallb_forall in H3, H4.
-      specialize (H3 v Hv). specialize (H4 v Hv). rewrite E in H3, H4. cbn [implb] in H3, H4.
-      apply str_eqb_eq in H3. auto.
-  Qed.
-
-  (* ======================================================================================== *)
-  (* 8. the guard WF16k and the exactness theorem                                              *)
-  (* ======================================================================================== *)
-
-  Definition method_ok (m : node) : bool :=
-    no_nested m && inh_ok m &&
-    nodup_locals (body m) && padb (body m) && key_consistent (body m) && args_plain (body m).
-
-  Definition item_ok (it : item) : bool :=
-    match it with Gap x => gap_quiet x | Meth m => method_ok m end.
-
-  Definition wf16b (file : node) : bool :=
-    negb (is_kind KAstFunction file) && forallb item_ok (items file).
-
-  Definition WF16k (file : node) : Prop := wf16b file = true.
-
-  (* one diagnostic per declaration satisfying its rule *)
-  Definition lints_spec (file : node) : list diag :=
-    spec_ret file ++ flat_map spec_purge (methods file) ++ spec_name file ++ flat_map spec_inh (methods file).
-
-  Lemma item_ok_inh its : forallb item_ok its = true -> Forall inh_item_ok its.
-  Proof.
-    rewrite forallb_forall, Forall_forall. intros H it Hit. specialize (H it Hit).
-    destruct it as [x|m]; cbn [item_ok inh_item_ok] in *; [exact H|].
-    unfold method_ok in H. rewrite !andb_true_iff in H. tauto.
-  Qed.
-
-  Theorem lints_exact_eq file : WF16k file -> lints_k keyf file = lints_spec file.
-  Proof.
-    unfold WF16k, wf16b. intro H. apply andb_true_iff in H as [Hr Hi]. apply negb_true_iff in Hr.
-    pose proof (item_ok_inh _ Hi) as Hinh.
-    assert (Hm : methods file = meths (items file)).
-    { apply methods_meths. rewrite Forall_forall in *. intros it Hit. specialize (Hinh it Hit).
-      destruct it; [exact I | exact Hinh]. }
-    unfold lints_k, lints_v2_k, lints_spec.
-    rewrite (ret_type_lint_spec file Hr), naming_lint_spec, (unpurged_lint_items file Hinh),
-      (inherited_lint_items file Hinh), Hm.
-    pose proof (items_shape file) as Hs.
-    assert (Hall : forall m, In m (meths (items file)) -> is_method m = true /\ method_ok m = true).
-    { intros m Hin. unfold meths in Hin. apply in_flat_map in Hin as (it & Hit & Hin).
-      destruct it as [x|m']; [destruct Hin|]. destruct Hin as [->|[]].
-      rewrite Forall_forall in Hs. rewrite forallb_forall in Hi. split; [apply (Hs _ Hit) | apply (Hi _ Hit)]. }
-    f_equal. f_equal; [|f_equal]; apply flat_map_ext_in; intros m Hin; destruct (Hall m Hin) as [Hmm Hok];
-      unfold method_ok in Hok; rewrite !andb_true_iff in Hok;
-      destruct Hok as [[[[[K1 K3] K4] K5] K6] K7].
-    - apply unp_verdict_spec. apply purge_guard_b; assumption.
-    - apply inh_verdict_spec; assumption.
-  Qed.
-
-  Theorem lints_exact file : WF16k file -> Permutation (lints_k keyf file) (lints_spec file).
-  Proof. intro H. rewrite (lints_exact_eq file H). apply Permutation_refl. Qed.
-End Purge.
-
-(* ========================================================================================== *)
-(* 9. the guard, clause by clause                                                             *)
-(* ========================================================================================== *)
-
-Lemma forallb_andb {A} (p q : A -> bool) l : forallb (fun x => p x && q x) l = forallb p l && forallb q l.
+Lemma unp_scan_eq n s :
+  unp_scan n s = fold_left (fun acc c => unp_scan c (pstep acc c)) (nchildren n) s.
 Proof.
-  induction l as [|x l IH]; [reflexivity|]. cbn [forallb]. rewrite IH.
-  destruct (p x), (q x), (forallb p l), (forallb q l); reflexivity.
+  destruct n as [k i r rg a ch]. cbn [unp_scan nchildren]. unfold pstep. revert s.
+  induction ch as [|c ch IH]; intro s; [reflexivity|]. cbn [fold_left]. apply IH.
 Qed.
 
-Lemma forallb_ext' {A} (p q : A -> bool) l : (forall x, p x = q x) -> forallb p l = forallb q l.
-Proof. intro H. induction l as [|x l IH]; [reflexivity|]. cbn [forallb]. rewrite H, IH. reflexivity. Qed.
+Lemma unp_scan_body m : forall s, unp_scan m s = fold_left pstep (body m) s.
+Proof.
+  induction m as [k i r rg a ch IH] using node_ind2. intro s.
+  rewrite unp_scan_eq. unfold body. cbn [nchildren].
+  apply (fold_left_flat_map pstep nodes). intros c s' Hc. rewrite Forall_forall in IH.
+  rewrite (IH c Hc), nodes_body. reflexivity.
+Qed.
 
+Lemma tvba_not_call x : is_tvba_local x = true -> is_purge_call x = false.
+Proof.
+  unfold is_tvba_local, is_purge_call. intro H. apply andb_true_iff in H as [H _].
+  rewrite (is_kind_excl _ KAstMethodCall _ H) by discriminate. reflexivity.
+Qed.
+
+Definition local_info (v : node) : str * range := (nident v, ident_range v).
+
+Lemma pfold_fst l : forall s, fst (fold_left pstep l s) = fst s ++ map local_info (locals l).
+Proof.
+  induction l as [|x l IH]; intro s; cbn [fold_left locals filter map].
+  - rewrite app_nil_r. reflexivity.
+  - rewrite IH. fold (locals l). unfold pstep, unp_local, unp_call.
+    destruct (is_tvba_local x) eqn:Et.
+    + rewrite (tvba_not_call x Et). cbn [fst map]. rewrite <- app_assoc. reflexivity.
+    + destruct (is_purge_call x); [|reflexivity].
+      destruct (child 0 x) as [a|]; [|reflexivity]. destruct (is_ident_terminal a); reflexivity.
+Qed.
+
+Definition names_arg (k : str) (a : node) : bool := is_ident_terminal a && str_eqb k (upper (nident a)).
+
+Lemma pfold_snd k l : forall s,
+  existsb (str_eqb k) (snd (fold_left pstep l s)) =
+  existsb (str_eqb k) (snd s) || existsb (names_arg k) (purge_args l).
+Proof.
+  induction l as [|x l IH]; intro s; cbn [fold_left].
+  - cbn. rewrite orb_false_r. reflexivity.
+  - rewrite IH. unfold purge_args at 2. cbn [flat_map]. fold (purge_args l). rewrite existsb_app, orb_assoc. f_equal.
+    unfold pstep, unp_local, unp_call.
+    destruct (is_tvba_local x) eqn:Et.
+    + rewrite (tvba_not_call x Et). cbn [snd existsb]. rewrite orb_false_r. reflexivity.
+    + destruct (is_purge_call x); [|cbn [existsb]; rewrite orb_false_r; reflexivity].
+      destruct (child 0 x) as [a|]; [|cbn [existsb]; rewrite orb_false_r; reflexivity].
+      unfold names_arg. cbn [existsb]. destruct (is_ident_terminal a); cbn [snd existsb andb].
+      * rewrite orb_false_r. apply orb_comm.
+      * rewrite orb_false_r. reflexivity.
+Qed.
+
+Lemma str_eqb_sym a b : str_eqb a b = str_eqb b a.
+Proof.
+  destruct (str_eqb a b) eqn:E.
+  - apply str_eqb_eq in E. subst. symmetry. apply str_eqb_refl.
+  - symmetry. apply str_eqb_neq. apply str_eqb_neq in E. congruence.
+Qed.
+
+Lemma flat_map_map {A B C} (f : A -> B) (g : B -> list C) l : flat_map g (map f l) = flat_map (fun x => g (f x)) l.
+Proof. induction l as [|x l IH]; [reflexivity|]. cbn [map flat_map]. rewrite IH. reflexivity. Qed.
+
+Lemma purged_name_spec l v : is_purged_name (snd (fold_left pstep l pscan0)) (nident v) = purged_in l v.
+Proof.
+  unfold is_purged_name, purged_in. rewrite pfold_snd. cbn [pscan0 snd existsb orb].
+  apply existsb_ext_in. intros a _. unfold names_arg, arg_refers, ci_eqb. rewrite str_eqb_sym. reflexivity.
+Qed.
+
+Definition unp_verdict (n : node) : list diag :=
+  if is_method n then unpurged_diags (unp_scan n pscan0) else [].
+
+Lemma unp_visit_verdict c anc n out : unp_visit c anc n out = out ++ unp_verdict n.
+Proof.
+  unfold unp_visit, unp_verdict. destruct (is_method n); [reflexivity | rewrite app_nil_r; reflexivity].
+Qed.
+
+Lemma unp_scan_spec m : unpurged_diags (unp_scan m pscan0) = spec_purge m.
+Proof.
+  rewrite unp_scan_body. unfold unpurged_diags, spec_purge. rewrite pfold_fst. cbn [pscan0 fst app].
+  rewrite flat_map_map. apply flat_map_ext_in. intros v _. unfold local_info. cbn [fst snd].
+  rewrite purged_name_spec. reflexivity.
+Qed.
+
+Theorem unpurged_lint_spec file : unpurged_lint file = flat_map spec_purge (methods file).
+Proof.
+  unfold unpurged_lint. rewrite (run2_append unp_visit unp_verdict unp_visit_verdict).
+  unfold methods. rewrite <- flat_map_filter. apply flat_map_ext_in. intros m _.
+  unfold unp_verdict. rewrite unp_scan_spec. reflexivity.
+Qed.
+
+(* ========================================================================================== *)
+(* 9. the exactness theorem: no guard on methods, declarations or statements                  *)
+(* ========================================================================================== *)
+
+(* one diagnostic per declaration satisfying its rule *)
+Definition lints_spec (file : node) : list diag :=
+  spec_ret file ++ flat_map spec_purge (methods file) ++ spec_name file ++ flat_map spec_inh (methods file).
+
+(* the only structural hypothesis: the v1 walker does not visit the root, so the root must not be a
+   function itself (the parser's root is an AstRoot) *)
+Definition RootNotFunction (file : node) : bool := negb (is_kind KAstFunction file).
+
+Theorem lints_exact_eq file : RootNotFunction file = true -> lints file = lints_spec file.
+Proof.
+  unfold RootNotFunction. intro H. apply negb_true_iff in H.
+  unfold lints, lints_v2, lints_spec.
+  rewrite (ret_type_lint_spec file H), naming_lint_spec, unpurged_lint_spec, inherited_lint_spec. reflexivity.
+Qed.
+
+Theorem lints_exact file : RootNotFunction file = true -> Permutation (lints file) (lints_spec file).
+Proof. intro H. rewrite (lints_exact_eq file H). apply Permutation_refl. Qed.
+
+(* ---- a declaration belongs to one method: when methods are not nested (the parser never nests them)
+        the pre-order listing is cut into the method subtrees and the nodes outside every method ---- *)
 Definition on_meths (p : node -> bool) (file : node) : bool :=
   forallb (fun it => match it with Gap _ => true | Meth m => p m end) (items file).
-Definition on_gaps (p : node -> bool) (file : node) : bool :=
-  forallb (fun it => match it with Gap x => p x | Meth _ => true end) (items file).
-
-(* the clauses of WF16k, named as in the report *)
-Definition RootNotFunction (file : node) : bool := negb (is_kind KAstFunction file).
-Definition QuietOutsideMethods : node -> bool := on_gaps gap_quiet.
 Definition NoNestedMethods : node -> bool := on_meths no_nested.
-Definition InheritedSelfOnly : node -> bool := on_meths inh_ok.
-Definition NoDupLocals : node -> bool := on_meths (fun m => nodup_locals (body m)).
-Definition PurgeAfterDecl : node -> bool := on_meths (fun m => padb (body m)).
-Definition PurgeKeyConsistent (keyf : str -> str) : node -> bool := on_meths (fun m => key_consistent keyf (body m)).
-Definition CaseConsistentPurge : node -> bool := PurgeKeyConsistent key_exact.
-Definition PurgeArgsPlain : node -> bool := on_meths (fun m => args_plain (body m)).
 
-Definition guard_profile (keyf : str -> str) (file : node) : list bool :=
-  [RootNotFunction file; QuietOutsideMethods file; NoNestedMethods file;
-   InheritedSelfOnly file; NoDupLocals file; PurgeAfterDecl file; PurgeKeyConsistent keyf file;
-   PurgeArgsPlain file].
-
-Lemma wf16b_profile keyf file : wf16b keyf file = forallb (fun b => b) (guard_profile keyf file).
+Lemma methods_partition file :
+  NoNestedMethods file = true ->
+  nodes file = flat_map expand (items file) /\ methods file = meths (items file).
 Proof.
-  unfold wf16b, guard_profile, RootNotFunction, QuietOutsideMethods, NoNestedMethods,
-    InheritedSelfOnly, NoDupLocals, PurgeAfterDecl, PurgeKeyConsistent, PurgeArgsPlain, on_meths, on_gaps.
-  cbn [forallb]. rewrite andb_true_r. f_equal.
-  rewrite <- !forallb_andb. apply forallb_ext'. intros [x|m]; cbn [item_ok].
-  - rewrite !andb_true_r. reflexivity.
-  - unfold method_ok. cbn [andb]. rewrite !andb_assoc. reflexivity.
-Qed.
-
-(* the map keyed by the upper-cased name (the proposed repair): the R1 clause holds outright *)
-Lemma upper_ci a b : upper a = upper b -> upper a = upper b.
-Proof. exact (fun H => H). Qed.
-
-Lemma exact_ci a b : key_exact a = key_exact b -> upper a = upper b.
-Proof. unfold key_exact. intros ->. reflexivity. Qed.
-
-Lemma key_consistent_upper l : key_consistent upper l = true.
-Proof.
-  unfold key_consistent. apply forallb_forall. intros a _. apply forallb_forall. intros v _.
-  unfold ci_eqb. destruct (str_eqb (upper (nident a)) (upper (nident v))); reflexivity.
-Qed.
-
-Definition WF16 (file : node) : Prop :=
-  forallb (fun b => b) [RootNotFunction file; QuietOutsideMethods file; NoNestedMethods file;
-                        InheritedSelfOnly file; NoDupLocals file; PurgeAfterDecl file; PurgeArgsPlain file] = true.
-
-Lemma WF16_upper file : WF16 file -> WF16k upper file.
-Proof.
-  unfold WF16, WF16k. rewrite wf16b_profile. unfold guard_profile. cbn [forallb].
-  replace (PurgeKeyConsistent upper file) with true; [tauto|].
-  symmetry. unfold PurgeKeyConsistent, on_meths. apply forallb_forall. intros [x|m] _; [reflexivity|].
-  apply key_consistent_upper.
-Qed.
-
-Theorem lints_exact_upper file :
-  WF16 file -> Permutation (lints_k upper file) (lints_spec file).
-Proof. intro H. apply (lints_exact upper upper_ci). apply WF16_upper. exact H. Qed.
-
-Lemma WF16_exact_split file :
-  WF16k key_exact file <-> WF16 file /\ CaseConsistentPurge file = true.
-Proof.
-  unfold WF16k, WF16, CaseConsistentPurge. rewrite wf16b_profile. unfold guard_profile. cbn [forallb].
-  rewrite !andb_true_iff. tauto.
+  intro H. split; [apply nodes_items|]. apply methods_meths.
+  unfold NoNestedMethods, on_meths in H. rewrite forallb_forall in H. apply Forall_forall. intros it Hit.
+  specialize (H it Hit). destruct it; [exact I | exact H].
 Qed.
 
 (* ========================================================================================== *)
@@ -1121,102 +845,76 @@ Qed.
 
 Definition root_stub : node := Node KAstRoot [] 0 range0 [] [].
 
-Section Local.
-  Context (keyf : str -> str) (keyf_ci : forall a b, keyf a = keyf b -> upper a = upper b).
+(* everything the rules say about one top-level declaration: a function of its subtree alone *)
+Definition decl_verdicts (c : node) : list diag :=
+  flat_map ret_verdict (nodes c) ++ flat_map spec_purge (methods c) ++
+  names_in [root_stub] c ++ flat_map spec_inh (methods c).
 
-  (* everything the rules say about one top-level declaration: a function of its subtree alone *)
-  Definition decl_verdicts (c : node) : list diag :=
-    flat_map ret_verdict (nodes c) ++ flat_map spec_purge (methods c) ++
-    names_in [root_stub] c ++ flat_map spec_inh (methods c).
+Lemma root_facts i r rg a ch :
+  let root := Node KAstRoot i r rg a ch in
+  is_method root = false /\ ret_verdict root = [] /\ name_verdict [] root = [] /\
+  is_override root = is_override root_stub /\ RootNotFunction root = true.
+Proof. repeat split; reflexivity. Qed.
 
-  Lemma root_facts i r rg a ch :
-    let root := Node KAstRoot i r rg a ch in
-    is_method root = false /\ ret_verdict root = [] /\ name_verdict [] root = [] /\
-    is_override root = is_override root_stub /\ gap_quiet root = true /\ is_kind KAstFunction root = false.
-  Proof. repeat split; reflexivity. Qed.
+Lemma lints_spec_root i r rg a ch :
+  Permutation (lints_spec (Node KAstRoot i r rg a ch)) (flat_map decl_verdicts ch).
+Proof.
+  set (root := Node KAstRoot i r rg a ch).
+  destruct (root_facts i r rg a ch) as (F1 & F2 & F3 & F4 & _). fold root in F1, F2, F3, F4.
+  unfold lints_spec, spec_ret, spec_name, methods.
+  rewrite nodes_eq, pre_eq. cbn [filter flat_map fst snd nchildren]. rewrite F1, F2, F3. cbn [app].
+  change (nchildren root) with ch. rewrite filter_flat_map, !flat_map_flat_map.
+  assert (E : flat_map (fun x => flat_map (fun p => name_verdict (fst p) (snd p)) (pre [root] x)) ch =
+              flat_map (names_in [root_stub]) ch).
+  { apply flat_map_ext_in. intros c _. apply (names_in_root root root_stub c F4 []). }
+  rewrite E. unfold decl_verdicts.
+  eapply Permutation_trans; [|apply perm_flat_map_app]. apply Permutation_app_head.
+  eapply Permutation_trans; [|apply perm_flat_map_app]. apply Permutation_app_head.
+  apply perm_flat_map_app.
+Qed.
 
-  Lemma lints_spec_root i r rg a ch :
-    Permutation (lints_spec (Node KAstRoot i r rg a ch)) (flat_map decl_verdicts ch).
-  Proof.
-    set (root := Node KAstRoot i r rg a ch).
-    destruct (root_facts i r rg a ch) as (F1 & F2 & F3 & F4 & _ & _). fold root in F1, F2, F3, F4.
-    unfold lints_spec, spec_ret, spec_name, methods.
-    rewrite nodes_eq, pre_eq. cbn [filter flat_map fst snd nchildren]. rewrite F1, F2, F3. cbn [app].
-    change (nchildren root) with ch. rewrite filter_flat_map, !flat_map_flat_map.
-    assert (E : flat_map (fun x => flat_map (fun p => name_verdict (fst p) (snd p)) (pre [root] x)) ch =
-                flat_map (names_in [root_stub]) ch).
-    { apply flat_map_ext_in. intros c _. apply (names_in_root root root_stub c F4 []). }
-    rewrite E. unfold decl_verdicts.
-    eapply Permutation_trans; [|apply perm_flat_map_app]. apply Permutation_app_head.
-    eapply Permutation_trans; [|apply perm_flat_map_app]. apply Permutation_app_head.
-    apply perm_flat_map_app.
-  Qed.
+(* the report of a file is the union of the verdicts on its top-level declarations, each computed
+   from that declaration's subtree alone -- for ALL lists of declarations *)
+Theorem lints_by_declaration i r rg a ch :
+  Permutation (lints (Node KAstRoot i r rg a ch)) (flat_map decl_verdicts ch).
+Proof.
+  rewrite (lints_exact_eq (Node KAstRoot i r rg a ch)) by reflexivity. apply lints_spec_root.
+Qed.
 
-  Lemma wf16_root i r rg a ch :
-    wf16b keyf (Node KAstRoot i r rg a ch) = forallb (fun c => forallb (item_ok keyf) (items c)) ch.
-  Proof.
-    unfold wf16b. rewrite items_eq.
-    destruct (root_facts i r rg a ch) as (F1 & _ & _ & _ & F5 & F6).
-    cbv zeta in F1, F5, F6. rewrite F1, F6. cbn [negb andb forallb item_ok nchildren]. rewrite F5. cbn [andb]. clear F1 F5 F6.
-    induction ch as [|c ch IH]; [reflexivity|]. cbn [flat_map forallb]. rewrite forallb_app, IH. reflexivity.
-  Qed.
+(* removing (or adding) a top-level declaration m changes the report by decl_verdicts m exactly;
+   the verdicts on everything else are unaffected *)
+Theorem lints_local i r rg a p m q :
+  Permutation (lints (Node KAstRoot i r rg a (p ++ m :: q)))
+              (lints (Node KAstRoot i r rg a (p ++ q)) ++ decl_verdicts m).
+Proof.
+  eapply Permutation_trans; [apply lints_by_declaration|].
+  eapply Permutation_trans;
+    [|apply Permutation_app_tail; apply Permutation_sym; apply lints_by_declaration].
+  rewrite !flat_map_app. cbn [flat_map]. rewrite <- app_assoc. apply Permutation_app_head.
+  apply Permutation_app_comm.
+Qed.
 
-  Lemma forallb_perm {A} (p : A -> bool) l l' : Permutation l l' -> forallb p l = forallb p l'.
-  Proof.
-    induction 1; cbn [forallb]; try congruence.
-    destruct (p x), (p y); reflexivity.
-  Qed.
+(* two files that contain the same top-level declaration m agree on its verdicts *)
+Corollary lints_agree i1 r1 rg1 a1 p1 q1 i2 r2 rg2 a2 p2 q2 m :
+  exists rest1 rest2,
+    Permutation (lints (Node KAstRoot i1 r1 rg1 a1 (p1 ++ m :: q1))) (rest1 ++ decl_verdicts m) /\
+    Permutation (lints (Node KAstRoot i2 r2 rg2 a2 (p2 ++ m :: q2))) (rest2 ++ decl_verdicts m) /\
+    rest1 = lints (Node KAstRoot i1 r1 rg1 a1 (p1 ++ q1)) /\
+    rest2 = lints (Node KAstRoot i2 r2 rg2 a2 (p2 ++ q2)).
+Proof.
+  eexists _, _. split; [apply lints_local|]. split; [apply lints_local|]. split; reflexivity.
+Qed.
 
-  (* removing (or adding) a top-level declaration m changes the report by decl_verdicts m exactly;
-     the verdicts on everything else are unaffected *)
-  Theorem lints_local i r rg a p m q :
-    WF16k keyf (Node KAstRoot i r rg a (p ++ m :: q)) ->
-    Permutation (lints_k keyf (Node KAstRoot i r rg a (p ++ m :: q)))
-                (lints_k keyf (Node KAstRoot i r rg a (p ++ q)) ++ decl_verdicts m).
-  Proof.
-    intro H.
-    assert (H' : WF16k keyf (Node KAstRoot i r rg a (p ++ q))).
-    { unfold WF16k in *. rewrite wf16_root in *. rewrite forallb_app in *. cbn [forallb] in H.
-      rewrite !andb_true_iff in *. tauto. }
-    eapply Permutation_trans; [apply (lints_exact keyf keyf_ci _ H)|].
-    eapply Permutation_trans; [apply lints_spec_root|].
-    eapply Permutation_trans;
-      [|apply Permutation_app_tail; apply Permutation_sym; eapply Permutation_trans;
-        [apply (lints_exact keyf keyf_ci _ H') | apply lints_spec_root]].
-    rewrite !flat_map_app. cbn [flat_map]. rewrite <- app_assoc. apply Permutation_app_head.
-    apply Permutation_app_comm.
-  Qed.
-
-  (* two files that contain the same top-level declaration m agree on its verdicts *)
-  Corollary lints_agree i1 r1 rg1 a1 p1 q1 i2 r2 rg2 a2 p2 q2 m :
-    WF16k keyf (Node KAstRoot i1 r1 rg1 a1 (p1 ++ m :: q1)) ->
-    WF16k keyf (Node KAstRoot i2 r2 rg2 a2 (p2 ++ m :: q2)) ->
-    exists rest1 rest2,
-      Permutation (lints_k keyf (Node KAstRoot i1 r1 rg1 a1 (p1 ++ m :: q1))) (rest1 ++ decl_verdicts m) /\
-      Permutation (lints_k keyf (Node KAstRoot i2 r2 rg2 a2 (p2 ++ m :: q2))) (rest2 ++ decl_verdicts m) /\
-      rest1 = lints_k keyf (Node KAstRoot i1 r1 rg1 a1 (p1 ++ q1)) /\
-      rest2 = lints_k keyf (Node KAstRoot i2 r2 rg2 a2 (p2 ++ q2)).
-  Proof.
-    intros H1 H2. eexists _, _. split; [apply lints_local; exact H1|].
-    split; [apply lints_local; exact H2|]. split; reflexivity.
-  Qed.
-
-  (* permuting the top-level declarations permutes the report *)
-  Theorem lints_permute i r rg a ch ch' :
-    Permutation ch ch' -> WF16k keyf (Node KAstRoot i r rg a ch) ->
-    WF16k keyf (Node KAstRoot i r rg a ch') /\
-    Permutation (lints_k keyf (Node KAstRoot i r rg a ch)) (lints_k keyf (Node KAstRoot i r rg a ch')).
-  Proof.
-    intros Hp H.
-    assert (H' : WF16k keyf (Node KAstRoot i r rg a ch')).
-    { unfold WF16k in *. rewrite wf16_root in *. rewrite <- (forallb_perm _ _ _ Hp). exact H. }
-    split; [exact H'|].
-    eapply Permutation_trans; [apply (lints_exact keyf keyf_ci _ H)|].
-    eapply Permutation_trans; [apply lints_spec_root|].
-    eapply Permutation_trans; [apply Permutation_flat_map; exact Hp|].
-    apply Permutation_sym. eapply Permutation_trans; [apply (lints_exact keyf keyf_ci _ H')|]. apply lints_spec_root.
-  Qed.
-End Local.
+(* permuting the top-level declarations permutes the report *)
+Theorem lints_permute i r rg a ch ch' :
+  Permutation ch ch' ->
+  Permutation (lints (Node KAstRoot i r rg a ch)) (lints (Node KAstRoot i r rg a ch')).
+Proof.
+  intro Hp.
+  eapply Permutation_trans; [apply lints_by_declaration|].
+  eapply Permutation_trans; [apply Permutation_flat_map; exact Hp|].
+  apply Permutation_sym. apply lints_by_declaration.
+Qed.
 
 (* ========================================================================================== *)
 (* 11. repeating the request                                                                  *)
@@ -1279,4 +977,11 @@ Proof.
   - intros (cls & H & ->). exists cls. split.
     + destruct cls; cbn [R_name] in H; try destruct H; unfold name_classes; cbn; tauto.
     + apply R_nameb_spec in H. rewrite H. left. reflexivity.
+Qed.
+
+Lemma spec_purge_count m :
+  length (spec_purge m) = length (filter (fun v => negb (purged_in (body m) v)) (locals (body m))).
+Proof.
+  unfold spec_purge. induction (locals (body m)) as [|v l IH]; [reflexivity|]. cbn [flat_map filter].
+  destruct (purged_in (body m) v); cbn [negb app length]; congruence.
 Qed.
